@@ -20,6 +20,7 @@ package basic
 //@   ensures [C12] password_matched: err == nil ==> pwMatched && rec != nil && rec.Uid != types.ZeroUid
 //@   assert at call store.UsersPersistenceInterface.GetAuthUniqueRecord [C12] folded_lookup: $2 == strings.ToLower($2)
 //@   assert at call bcrypt.CompareHashAndPassword [C12] known_login: uid != types.ZeroUid
+//@   assert at call bcrypt.CompareHashAndPassword [C12] whole_password_compared: len($2) == len(password)
 
 //@ func (a *authenticator) IsUnique(secret []byte, remoteAddr string) (ok bool, err error)
 //@   requires [C12] a != nil
@@ -30,3 +31,10 @@ package basic
 //@   requires [C12] a != nil && rec != nil
 //@   modifies inferred
 //@   assert at call store.UsersPersistenceInterface.AddAuthRecord [C12] folded_login: $4 == strings.ToLower($4)
+// (what is hashed when a password is set, and what is compared at login, is the whole password - not a part of it)
+//@   assert at call bcrypt.GenerateFromPassword [C12] whole_password_hashed: len($1) == len(password)
+
+//@ func (a *authenticator) UpdateRecord(rec *auth.Rec, secret []byte, remoteAddr string) (res *auth.Rec, err error)
+//@   requires [C12] a != nil && rec != nil
+//@   modifies inferred
+//@   assert at call bcrypt.GenerateFromPassword [C12] whole_password_hashed: len($1) == len(password)
